@@ -16,7 +16,7 @@ Lemma delta_cfg_is : delta_cfg = DCfg RefRefRetarget PkNonEmpty AutoVtBigint. Pr
 
 (* getPostgresDataTypes + constants *)
 Lemma pg_type_spec : forall p sz, pg_type p sz =
-  match p with PString => TVarchar sz | PInt => TInteger | PDate => TDate | POther => TVarchar 50 end.
+  match p with PString => TVarchar sz | PInt => TInteger | PDate => TDate | POther | PRef1 => TVarchar 50 end.
 Proof. intros [] sz; reflexivity. Qed.
 
 (* the switch itself, arm by arm: a new / changed arm (e.g. another primitive mapped to a real SQL type) is an
@@ -30,3 +30,51 @@ Local Close Scope string_scope.
 
 Lemma default_size_is : default_text_size = 50%N. Proof. reflexivity. Qed.
 Lemma bigint_ty_is : bigint_ty = TBigint. Proof. reflexivity. Qed.
+
+(* ---- round 3: which columns are references, and what is done to the text writeCreateSQLForAColumn returns ---- *)
+Lemma text_shape : (ref_guard, create_trim, addcol_post) = (GuardForeignKey, TrimNlComma, PostTrimDropLast).
+Proof. reflexivity. Qed.
+Lemma create_trim_is : create_trim = TrimNlComma. Proof. reflexivity. Qed.
+Lemma addcol_post_is : addcol_post = PostTrimDropLast. Proof. reflexivity. Qed.
+
+(* the pieces themselves: the three formats of the column text, the foreign-key constraint, addConstraints *)
+Local Open Scope string_scope.
+Lemma column_text_expected : column_text_shape =
+  [
+   "s = fmt.Sprintf(""  %s %s,\n"", attrName, datatype)";
+   """  CONSTRAINT "" + fkName + "" FOREIGN KEY("" + attrName + "") REFERENCES "" + path0 + "" ("" + path1 + ""),""";
+   "s = fmt.Sprintf(""  %s %s,\n"", attrName, ""bigserial"")";
+   "s = fmt.Sprintf(""  %s %s,\n"", attrName, datatype)";
+   "pk := v.getPrimaryKeyString(primaryKeys)";
+   "if !strings.EqualFold(pk, """") { tableName = strings.ToUpper(tableName) + ""_PK"" s = s + ""  CONSTRAINT "" + tableName + "" PRIMARY KEY("" + pk + ""),"" }";
+   "for _, foreignKeyConstraint := range foreignKeyConstraints { s = s + ""\n"" + foreignKeyConstraint }";
+   "return s"].
+Proof. reflexivity. Qed.
+
+(* ProcessModSysls: one script per application name the new module has; the builder is Reset before each *)
+Lemma mod_apps_expected : mod_apps_shape =
+  [
+   "var outputSlice []ScriptOutput";
+   "for _, appName := range appNames";
+   "appOld := appsOld[appName]";
+   "appNew := appsNew[appName]";
+   "if appOld != nil && appNew != nil";
+   "v.stringBuilder.Reset()";
+   "typeMapOld := appOld.GetTypes()";
+   "typeMapNew := appNew.GetTypes()";
+   "tableDepthMapOld := CreateTableDepthMap(typeMapOld)";
+   "tableDepthMapNew := CreateTableDepthMap(typeMapNew)";
+   "tablesWithActions := findAddedDeletedRetainedTables(typeMapOld, typeMapNew, tableDepthMapOld, tableDepthMapNew)";
+   "outStr := v.processTablesForModifiedApps(tablesWithActions, v.title, appName, dbType)";
+   "outputFile := filepath.Join(outputDir, appName+SQLExtension)";
+   "outputStruct := MakeScriptOutput(outputFile, outStr)";
+   "outputSlice = append(outputSlice, *outputStruct)";
+   "if appNew != nil && appOld == nil";
+   "v.stringBuilder.Reset()";
+   "outStr := v.GenerateDatabaseScriptCreate(appNew.GetTypes(), dbType, appName)";
+   "outputFile := filepath.Join(outputDir, appName+SQLExtension)";
+   "outputStruct := MakeScriptOutput(outputFile, outStr)";
+   "outputSlice = append(outputSlice, *outputStruct)";
+   "return outputSlice"].
+Proof. reflexivity. Qed.
+Local Close Scope string_scope.
